@@ -2,9 +2,13 @@
 (cxx2c keep_cases); everything the builder constructs is modelled by props/bx/bx_model.h."""
 import copy
 SP = r'(const )?std::(shared_ptr<%s>|__shared_ptr<%s.*>|__shared_ptr_access<%s.*>)'
-OPK = r'(op|op_origin|op_ifelse|op_merge|op_tine|op_capture|op_subx|op_tr_closure|op_or|op_nop|op_bind|stringer|stringer_origin|stringer_lit|stringer_op|op_format)'
+OPK = r'(op|op_read|op_upread|op_apply|op_lex_closure|op_origin|op_ifelse|op_merge|op_tine|op_capture|op_subx|op_tr_closure|op_or|op_nop|op_bind|stringer|stringer_origin|stringer_lit|stringer_op|op_format)'
 TV = r'(const )?std::vector<tree(, std::allocator<tree>)?>'
 TVIT = r'__gnu_cxx::__normal_iterator<(const )?tree \*, std::vector<tree.*>>'
+STRT = r'(const )?(std::basic_string<char.*>|std::string|std::__cxx11::basic_string<char.*>)'
+IDMAP = r'(const )?std::map<unsigned int, std::(__cxx11::)?basic_string<char.*>.*>'
+IDMAP_RIT = r'std::reverse_iterator<std::_Rb_tree_iterator<std::pair<const unsigned int, .*>>>|std::map<unsigned int, .*>::reverse_iterator'
+IDPAIR = r'(const )?std::pair<const unsigned int, std::(__cxx11::)?basic_string<char.*>>'
 BX_CFG = {
     'names': {'(anonymous namespace)::build_exec': 'build_exec'},
     'bodies_prelude': '',
@@ -15,12 +19,15 @@ BX_CFG = {
               r'(const )?std::vector<layout(, std::allocator<layout>)?>': 'mlayvec',
               r'std::initializer_list<layout>': 'mlayvec',
               r'(const )?std::unique_ptr<pred(, std::default_delete<pred>)?>': 'int',
-              r'op_merge|op_tine': 'mop', TVIT + r'|std::vector<tree>::(const_)?iterator': 'const mtree *'},
+              r'op_merge|op_tine|op_bind': 'mop', STRT: 'matom', r'(const )?binding': 'mbinding', r'(const )?upref': 'mupref',
+              IDMAP: 'midmap', IDMAP_RIT: 'const midname *', IDPAIR: 'midname', TVIT + r'|std::vector<tree>::(const_)?iterator': 'const mtree *'},
     'types_are_records': {r'(const )?layout': True, r'uprefs': True, r'(const )?tree': True, r'bindings': True,
                           r'(const )?std::vector<tree(, std::allocator<tree>)?>': True, r'builtin': True,
                           r'(const )?std::vector<layout(, std::allocator<layout>)?>': True, r'std::initializer_list<layout>': True,
-                          r'op_merge|op_tine': True},
-    'record_ctypes': ['mlayout', 'muprefs', 'mtree', 'mbindings', 'mtreevec', 'mbuiltin', 'mlayvec', 'mop'],
+                          r'op_merge|op_tine|op_bind': True, r'(const )?binding': True, r'(const )?upref': True, IDMAP: True, IDPAIR: True},
+    'record_default': {'mbindings': 'mbindings_root()', 'mlayout': '(mlayout){0}'},
+    'exception_kinds': {r'std::runtime_error': 2},
+    'record_ctypes': ['mbinding', 'mupref', 'midmap', 'midname', 'mlayout', 'muprefs', 'mtree', 'mbindings', 'mtreevec', 'mbuiltin', 'mlayvec', 'mop'],
     'types_prelude': '#include "../bx/bx_model.h"\n',
     'extern': {'__assert_fail': 'verif_assert_fail_libc', 'abort': 'verif_abort',
                r'std::make_shared\|(std::)?shared_ptr<(_NonArray<)?op_ifelse>.*': 'mk_ifelse',
@@ -41,7 +48,21 @@ BX_CFG = {
                r'(const )?std::vector<tree.*>::size': 'mtreevec_size',
                r'bindings::ctor\|void \(bindings &\)': 'mbindings_nested',
                r'std::__shared_ptr_access<.*>::operator(->|\*)': {'c': 'PTR_ID', 'by_value': True},
-               r'std::move': 'VERIF_MOVE'},
+               r'std::move': 'VERIF_MOVE',
+               r'tree::str': 'mtree_str', r'bindings::find': 'mb_find', r'bindings::bind': 'mb_bind', r'uprefs::find': 'mu_find',
+               r'binding::is_builtin': 'mbinding_is_builtin', r'binding::get_bind': 'mbinding_get_bind', r'binding::get_builtin': 'mbinding_get_builtin',
+               r'upref::is_builtin': 'mupref_is_builtin', r'upref::get_id': 'mupref_get_id', r'upref::get_builtin': 'mupref_get_builtin',
+               r'\(anonymous namespace\)::build_builtin': 'mk_builtin',
+               r'std::make_shared\|(std::)?shared_ptr<(_NonArray<)?op_read>.*': 'mk_read',
+               r'std::make_shared\|(std::)?shared_ptr<(_NonArray<)?op_upread>.*': 'mk_upread',
+               r'std::make_shared\|(std::)?shared_ptr<(_NonArray<)?op_apply>.*': 'mk_apply',
+               r'std::make_shared\|(std::)?shared_ptr<(_NonArray<)?op_bind>.*': 'mk_bind',
+               r'std::make_shared\|(std::)?shared_ptr<(_NonArray<)?op_lex_closure>.*': 'mk_lex_closure',
+               r'uprefs::ctor\|void \(bindings &, uprefs &\)': 'muprefs_nested', r'uprefs::refd_ids': 'mu_refd_ids',
+               r'op_apply::reserve_rendezvous': 'model_reserve_rdv',
+               IDMAP + r'::rbegin': 'IDMAP_RBEGIN', IDMAP + r'::rend': 'IDMAP_REND', IDMAP + r'::size': 'IDMAP_SIZE',
+               r'std::operator!=\|.*reverse_iterator.*': {'c': 'IT_NE', 'by_value': True}, r'std::reverse_iterator<.*>::operator\+\+': 'RIT_PREINC',
+               r'std::reverse_iterator<.*>::operator->': {'c': 'RIT_ARROW', 'by_value': True}},
 }
 BX_ROOTS = ['(anonymous namespace)::build_exec']
 
@@ -54,8 +75,8 @@ def cfg(cases):
 
 import os, sys
 HERE = os.path.dirname(os.path.abspath(__file__))
-ALL_CASES = ['IFELSE', 'ALT', 'SCOPE', 'CAPTURE', 'CLOSE_STAR', 'CLOSE_PLUS', 'OR', 'CAT']
-LOOPING = {'alt', 'or', 'cat'}
+ALL_CASES = ['IFELSE', 'ALT', 'SCOPE', 'CAPTURE', 'CLOSE_STAR', 'CLOSE_PLUS', 'OR', 'CAT', 'READ', 'BIND', 'BLOCK']
+LOOPING = {'alt', 'or', 'cat', 'block'}
 
 
 def prepare(vlib, out):
@@ -68,9 +89,17 @@ def jobs(vlib, Job, out, names, control=False):
     inc = [out, os.path.join(vlib.VERIF, 'props'), HERE]
     src = [os.path.join(HERE, 'bx_harness.c'), os.path.join(out, 'bx_bodies.c')]
     J = []
+    expanded = []
     for nm in names:
+        if nm == 'block':
+            expanded += [('block', 'block_upvalues%d' % k, ['BX_REFD=%d' % k]) for k in range(4)]
+        elif nm == 'read':
+            expanded.append(('read', 'read', ['BX_ATOM=1']))
+        else:
+            expanded.append((nm, nm, []))
+    for nm, jn, defs in expanded:
         loop = nm in LOOPING
-        J.append(Job(('bounded_' if loop else '') + 'build_exec_' + nm, src, 'h_bx_' + nm, includes=inc, kind='bounded' if loop else 'proof',
+        J.append(Job(('bounded_' if loop else '') + 'build_exec_' + jn, src, 'h_bx_' + nm, includes=inc, kind='bounded' if loop else 'proof', defines=defs,
                      unwind=9, timeout=300, cbmc_args=['--object-bits', '10'],
                      note=('build_exec case of build.cc, <= 3 sub-expressions' if loop else 'build_exec case of build.cc: loop-free, complete against the model of the recursive call and constructors')))
     if control:
